@@ -73,6 +73,9 @@ func NewBuilder(dir string, numItems uint, targetFileSize uint64) (*Builder, err
 // Index generation will fail if the same key is inserted twice.
 // The writer must not pass a value greater than targetFileSize.
 func (b *Builder) Insert(key []byte, value [36]byte) error {
+	if len(key) > math.MaxUint16 {
+		return fmt.Errorf("key is too long: %d bytes", len(key))
+	}
 	return b.buckets[b.Header.BucketHash(key)].writeTuple(key, value)
 }
 
